@@ -493,10 +493,12 @@ func (r *roleBase) getConstraints() (cts constraint.Constraints) {
 	}
 
 	if r.parent == nil {
-		return
+		return cts.MergeParent(nil)
 	}
 	if parentRole := r.GetParentRole(); parentRole != nil {
 		cts = cts.MergeParent(parentRole.getConstraints())
+	} else { // top-level role: an attribute named twice collapses as in any other role
+		cts = cts.MergeParent(nil)
 	}
 
 	return
